@@ -656,7 +656,8 @@ def jobs(ctx):
         with_pairs=False, gen_kind='proc')
     for h in hists:
         for issuer in ('step', 'process'):
-            for ts_pair in ((1, 1), (3, 1)):
+            for ts_pair in ((1, 1), (3, 1)) if ctx.quick else (
+                    (1, 1), (3, 1), (1, 3), (2, 1)):
                 out.append(('hist', h, issuer, ts_pair))
     # compartments holding three workers (one nested): all of them must
     # be stopped when the compartment is deleted or divided away
